@@ -2321,8 +2321,6 @@ func (c *compiler) VisitAssignStmt(s *ast.AssignStmt) ast.VisitResult {
 		index = c.floatOrByteAsInt(index, indexTyp)
 		c.cbb.NewCall(c.ddpstring.replaceCharIrFun, lhs, rhs, index)
 	} else {
-		c.freeNonPrimitive(lhs, lhsTyp) // free the old value in the variable/list
-
 		// implicit cast to any if required
 		if lhsTyp == c.ddpany && rhsTyp != c.ddpany {
 			vtable := rhsTyp.VTable()
@@ -2332,7 +2330,16 @@ func (c *compiler) VisitAssignStmt(s *ast.AssignStmt) ast.VisitResult {
 			rhs, rhsTyp, isTempRhs = c.castNonAnyToAny(rhs, rhsTyp, isTempRhs, vtable)
 		}
 
-		c.claimOrCopy(lhs, rhs, rhsTyp, isTempRhs) // copy/claim the new value
+		if !isTempRhs && !rhsTyp.IsPrimitive() {
+			// the new value might be (part of) the old one (Speichere x in x),
+			// so it is copied before the old value is freed
+			copied := c.deepCopyInto(c.NewAlloca(rhsTyp.IrType()), rhs, rhsTyp)
+			c.freeNonPrimitive(lhs, lhsTyp) // free the old value in the variable/list
+			c.cbb.NewStore(c.cbb.NewLoad(rhsTyp.IrType(), copied), lhs)
+		} else {
+			c.freeNonPrimitive(lhs, lhsTyp)            // free the old value in the variable/list
+			c.claimOrCopy(lhs, rhs, rhsTyp, isTempRhs) // claim the new value
+		}
 	}
 	return ast.VisitRecurse
 }
